@@ -262,6 +262,9 @@ func (i *interpreter) equalsV(t types.Type, x, y value) value {
 	case array:
 		ya := y.(array)
 		tElt := t.Underlying().(*types.Array).Elem()
+		if b, ok := tElt.Underlying().(*types.Basic); ok && b.Kind() == types.Uint8 {
+			return i.bytesEqV(x, ya)
+		}
 		var acc value = true
 		for k := range x {
 			acc = i.andV(acc, i.equalsV(tElt, x[k], ya[k]))
@@ -299,19 +302,61 @@ func sameType(x, y types.Type) bool {
 	return y != nil && types.Identical(x, y)
 }
 
+// extRun returns the end (exclusive) of the run of bytes starting at s[k] that are consecutive
+// 8-bit slices of one wider term (a hash output, an integer), or k if s[k] is not such a slice.
+func extRun(s []value, k int) int {
+	t, ok := s[k].(*Term)
+	if !ok || t.op != opExtract || t.w != 8 {
+		return k
+	}
+	j := k + 1
+	for j < len(s) {
+		n, ok := s[j].(*Term)
+		if !ok || n.op != opExtract || n.w != 8 || n.args[0] != t.args[0] || n.hi != t.lo-1 {
+			break
+		}
+		t = n
+		j++
+	}
+	return j
+}
+
+// bytesEqV returns the equality of two byte sequences of equal length. Runs of bytes that are
+// consecutive slices of one wider term are compared as one wide term, so that the comparison
+// coincides syntactically with the equalities the hash axioms speak about (comparing a digest
+// byte by byte with a constant otherwise costs the solver a search it may not finish).
+func (i *interpreter) bytesEqV(xs, ys []value) value {
+	u8 := types.Typ[types.Uint8]
+	var acc value = true
+	for k := 0; k < len(xs); {
+		j := extRun(xs, k)
+		if jy := extRun(ys, k); j-k < 2 || (jy-k >= 2 && jy < j) {
+			if jy-k >= 2 {
+				j = jy
+			}
+		}
+		var eq value
+		if j-k >= 2 {
+			eq = fromTerm(types.Typ[types.Bool], i.tb.Eq(i.bytesTerm(xs[k:j]), i.bytesTerm(ys[k:j])))
+		} else {
+			j = k + 1
+			eq = i.equalsV(u8, xs[k], ys[k])
+		}
+		acc = i.andV(acc, eq)
+		if acc == false {
+			return false
+		}
+		k = j
+	}
+	return acc
+}
+
 func (i *interpreter) strEq(x, y value) value {
 	xb, yb := strBytes(x), strBytes(y)
 	if len(xb) != len(yb) {
 		return false
 	}
-	var acc value = true
-	for k := range xb {
-		acc = i.andV(acc, i.equalsV(types.Typ[types.Uint8], xb[k], yb[k]))
-		if acc == false {
-			return false
-		}
-	}
-	return acc
+	return i.bytesEqV(xb, yb)
 }
 
 func (i *interpreter) bytesLess(xb, yb []value, orEq bool) value {
